@@ -149,7 +149,14 @@ func c11History(c *rt.Ctx, h int) {
 			pu, pm, pd := P.User().Name(), P.UMask(), mustWd(P)
 			su, sm, sd := sib.User().Name(), sib.UMask(), mustWd(sib)
 			what := ""
-			switch r.IntN(3) {
+			switch r.IntN(4) {
+			case 3:
+				// the mode of the view's root directory, changed through the parent (mirrored on the twin): a root that
+				// the view's user cannot search or write is an ordinary directory, not the administrator's "/"
+				m := []fs.FileMode{0o755, 0o700, 0o600, 0o711, 0, 0o750, 0o555, 0o777}[r.IntN(8)]
+				_ = P.Chmod(dir, m)
+				_ = Q.Chmod(dir, m)
+				what = fmt.Sprintf("parent: Chmod(%q,%04o)", dir, uint32(m))
 			case 0:
 				curUser = r.IntN(len(users))
 				_ = V.SetUser(users[curUser])
@@ -165,6 +172,15 @@ func c11History(c *rt.Ctx, h int) {
 				target := viewAbs(V, vcwd, o.P)
 				res := env.Exec(o)
 				what = o.String() + " -> " + res.Err
+				// the same directory change asked of the twin's counterpart view, which is moved back afterwards (it is
+				// always given absolute paths)
+				cres := cenv.Exec(fsx.Op{K: "Chdir", P: Q.Join(dir, target)})
+				_ = C.Chdir("/")
+				if !fatalRes(res) && !fatalRes(cres) && res.Err != cres.Err {
+					hist = append(hist, "view: "+what)
+					c.Disagree(fmt.Sprintf("view|Chdir|view=%s|parent=%s", res.Err, cres.Err), fmt.Sprintf("Sub(%q) as %s: Chdir(%q) returns %s through the view but Chdir(%q) returns %s on the parent", dir, users[curUser].Name(), o.P, res, Q.Join(dir, target), cres), replay())
+					return
+				}
 				if res.Err == "ok" {
 					vcwd = target
 					if wd, _ := V.Getwd(); wd != target {
